@@ -153,16 +153,20 @@ func c16Gen(t *rapid.T) c16Case {
 	}
 	ns := rapid.IntRange(2, 7).Draw(t, "steps")
 	for i := 0; i < ns; i++ {
+		// targets are offsets from the player's current server at execution time (0 = the current server)
 		st := c16Step{
-			T1: rapid.IntRange(0, nb-1).Draw(t, "t1"), API1: rapid.IntRange(0, 1).Draw(t, "api1"),
-			T2: rapid.IntRange(0, nb-1).Draw(t, "t2"), API2: rapid.SampledFrom([]int{0, 1, 1}).Draw(t, "api2"),
-			T3: rapid.IntRange(0, nb-1).Draw(t, "t3"), API3: rapid.IntRange(0, 1).Draw(t, "api3"),
+			T1: rapid.IntRange(1, nb-1).Draw(t, "t1"), API1: rapid.IntRange(0, 1).Draw(t, "api1"),
+			T2: rapid.IntRange(0, nb-1).Draw(t, "t2"), API2: rapid.SampledFrom([]int{0, 1, 1, 1}).Draw(t, "api2"),
+			T3: rapid.IntRange(0, nb-1).Draw(t, "t3"), API3: rapid.SampledFrom([]int{0, 1, 1, 1}).Draw(t, "api3"),
+		}
+		if rapid.IntRange(0, 9).Draw(t, "to_current") == 0 {
+			st.T1 = 0
 		}
 		switch k := rapid.IntRange(0, 99).Draw(t, "op"); {
-		case k < 30:
+		case k < 25:
 			st.Op = "seq"
 			st.S1 = c16GenScript(t, cfgPhase, false)
-		case k < 60:
+		case k < 55:
 			st.Op = "overlap"
 			st.S1 = c16GenScript(t, cfgPhase, true)
 			st.Third = rapid.IntRange(0, 2).Draw(t, "third") == 0
@@ -232,6 +236,7 @@ type c16Exec struct {
 	winNeed     int
 	winCh       chan struct{}
 	curModel    string // expected current server; "?" when the model does not know
+	needServer  string // set when the proxy's own recovery ran: an alive player must be on some server
 }
 
 type c16Sink struct{ hook func(name string) }
@@ -273,6 +278,7 @@ func (x *c16Exec) issue(t, api int, sc *c15Script) *c16Req {
 	r.wg.Add(1)
 	go func() {
 		defer r.wg.Done()
+		defer cancel() // like a real caller; also ends the proxy's per-attempt context watchers
 		defer func() {
 			if p := recover(); p != nil {
 				q.panicked = fmt.Sprintf("%v\n%s", p, debug.Stack())
@@ -435,6 +441,8 @@ func (x *c16Exec) describe() string {
 	for _, e := range r.events {
 		ev = append(ev, e.Kind+":"+e.Server)
 	}
+	cl := r.client
+	fmt.Fprintf(&sb, "client[kicked=%v %q closed=%v joins=%d startUpdates=%d cfgFinished=%d handleDone=%v] ", cl.kicked, c15Printable(cl.kickPayload), cl.rdDone, cl.joins, cl.startUpdates, cl.cfgFinished, r.handleDone)
 	return sb.String() + "events=" + strings.Join(ev, ",")
 }
 
@@ -521,6 +529,10 @@ func (x *c16Exec) quiescent(site string) {
 			x.fail("player-list:mismatch", "%s: player on %q (alive=%v): Players() of %q contains player = %v, want %v; %s", site, cur, alive, n, in, want, x.describe())
 		}
 	}
+	if alive && x.needServer != "" && cur == "" {
+		x.fail("recovery:left-without-server", "%s: after %s the player is still connected to the proxy but on no server (neither previous server nor fallback, nor disconnected); %s", site, x.needServer, x.describe())
+	}
+	x.needServer = ""
 	if alive && x.curModel != "?" && cur != x.curModel {
 		x.fail("current-server:unexpected", "%s: player is on %q, expected %q; %s", site, cur, x.curModel, x.describe())
 	}
@@ -622,6 +634,7 @@ func (x *c16Exec) judge(site string, q *c16Req, pred string, before c16Snap) {
 			}
 		} else {
 			x.curModel = "?" // next fallback or disconnect (choice of fallback: C17)
+			x.needServer = "a failed ConnectWithIndication (" + q.status + " " + q.errText + ")"
 		}
 	}
 }
@@ -808,7 +821,11 @@ func (x *c16Exec) stepPrehold(st c16Step) {
 	var sc [2]*c15Script
 	for i := range sc {
 		s := plain
-		if !st.WaitFirst && i == st.First {
+		holder := st.First
+		if st.T1 == st.T2 {
+			holder = 0 // same backend: one-shot scripts are consumed in dial order
+		}
+		if !st.WaitFirst && i == holder {
 			s = hold
 		}
 		sc[i] = &s
@@ -974,6 +991,7 @@ func (x *c16Exec) stepKick(st c16Step) {
 		x.inconclusive("kick-watchdog")
 	}
 	x.curModel = "?"
+	x.needServer = "a " + kind + " by the current server"
 }
 
 func (x *c16Exec) run() {
@@ -1011,6 +1029,14 @@ func (x *c16Exec) run() {
 			x.label("player-gone-early")
 			break
 		}
+		base := 0
+		for j, n := range x.names {
+			if n == x.curModel {
+				base = j
+			}
+		}
+		nb := len(x.names)
+		st.T1, st.T2, st.T3 = (base+st.T1)%nb, (base+st.T2)%nb, (base+st.T3)%nb
 		switch st.Op {
 		case "seq":
 			x.stepSeq(st)
@@ -1068,6 +1094,9 @@ func c16Run(c c16Case) (res verifkit.Result) {
 		return res
 	}
 	if leak != "" {
+		if c15DebugLeak {
+			return verifkit.Fail("debug:leak", "%s", leak)
+		}
 		return verifkit.Result{Inconclusive: true, Labels: []string{"goroutines-left-after-close"}}
 	}
 	labels := []string{fmt.Sprintf("protocol-%d", c.Protocol)}
